@@ -13,10 +13,31 @@ pub enum Nodes {
 }
 
 #[derive(Clone, Debug, Deserialize, Serialize, PartialEq)]
+#[serde(from = "NodesTimestampDataModel")]
 pub enum NodesTimestamp {
     F64(IndexMap<i64, f64>),
     Dual(IndexMap<i64, Dual>),
     Dual2(IndexMap<i64, Dual2>),
+}
+
+/// Serialized form of [NodesTimestamp]: keys are sorted when loaded, as `CurveDF::try_new` does.
+#[derive(Deserialize)]
+enum NodesTimestampDataModel {
+    F64(IndexMap<i64, f64>),
+    Dual(IndexMap<i64, Dual>),
+    Dual2(IndexMap<i64, Dual2>),
+}
+
+impl From<NodesTimestampDataModel> for NodesTimestamp {
+    fn from(model: NodesTimestampDataModel) -> Self {
+        let mut nodes = match model {
+            NodesTimestampDataModel::F64(m) => NodesTimestamp::F64(m),
+            NodesTimestampDataModel::Dual(m) => NodesTimestamp::Dual(m),
+            NodesTimestampDataModel::Dual2(m) => NodesTimestamp::Dual2(m),
+        };
+        nodes.sort_keys();
+        nodes
+    }
 }
 
 impl NodesTimestamp {
